@@ -1,0 +1,43 @@
+//go:build verif
+
+// Contracts for the verif build tag: //@ comment blocks read by /verif/gocv.
+
+package requests
+
+//@ func IsBatchMode
+//@ props C07
+//@ end
+
+//@ func parseRequest
+//@ props C07 C08
+//@ returns resp, err
+//@ ensures[resp] err == nil ==> resp != nil
+//@ ensures[err] err != nil ==> resp == nil
+//@ ensures[single] err == nil && !resp.IsBatchMode ==> len(resp.Requests) == 1
+//@ ensures[nonnil] err == nil ==> forall(k, 0, len(resp.Requests), resp.Requests[k] != nil)
+//@ ensures[query] err == nil ==> forall(k, 0, len(resp.Requests), resp.Requests[k].Query != "")
+//@ loop 0 invariant[nonnil] forall(k, 0, it, multipleRequests[k] != nil && multipleRequests[k].Query != "")
+//@ end
+
+//@ func (*ParseRequestResponse).injectFile
+//@ props C07 C19
+//@ requires r != nil
+//@ requires forall(k, 0, len(r.Requests), r.Requests[k] != nil)
+//@ loop 1 invariant[lo] i >= 1
+//@ end
+
+//@ func Parse
+//@ props C07
+//@ requires r != nil
+//@ end
+
+//@ func Parse$1
+//@ props C07
+//@ requires resp != nil ==> forall(k, 0, len(resp.Requests), resp.Requests[k] != nil)
+//@ end
+
+//@ extern net/http (*Request).FormFile
+//@ returns file, header, err
+//@ ensures err == nil ==> header != nil
+//@ modifies fresh
+//@ end
